@@ -6,7 +6,9 @@ that give inner scopes (loop / if bodies) their own symbols, as transformations 
 def gen_program(rng):
     """-> (source text, list of tweaks).  A tweak is ["inner", k, name, with_kind, with_bound]:
     declare an array `name` in the symbol table of the k-th Schedule that is not a Routine, with a
-    kind / bound taken from the enclosing routine, and use it there."""
+    kind / bound taken from the enclosing routine, and use it there; or ["ltype", r, name]: define a
+    derived type `name` in routine r (module if r < 0) whose components use that scope's parameters as
+    kind, array bound and in default initialisers, and declare a scalar and an array of that type."""
     use_import = rng.random() < 0.75
     wildcard = rng.random() < 0.25
     nrout = rng.randint(1, 3)
@@ -19,11 +21,14 @@ def gen_program(rng):
     L.append("  integer, parameter :: gk = 8, gn = 5")
     L.append("  integer, parameter :: gq = gn * 2")
     L.append("  real(kind=gk), dimension(gn) :: garr")
-    if rng.random() < 0.4:
+    if rng.random() < 0.5:
+        # container-level derived type; its default initialiser uses a module parameter that nothing else uses
+        L.append("  integer, parameter :: g0 = 2")
         L.append("  type :: pt")
-        L.append("    integer :: cnt")
+        L.append("    integer :: cnt = g0 + 1")
         L.append("    real, dimension(3) :: xs")
         L.append("  end type pt")
+        L.append("  type(pt) :: gp")
         has_type = True
     else:
         has_type = False
@@ -64,6 +69,21 @@ def gen_program(rng):
             has_p = True
         else:
             has_p = False
+        if rng.random() < 0.45:
+            # routine-level derived type: default initialisers use a local parameter that nothing else uses
+            # (n0) and a literal with a kind; variables of that type.  (Kinds and array bounds that use
+            # parameters of the SAME scope are added by the "ltype" tweak: the frontend mishandles them.)
+            L.append("    integer, parameter :: n0 = 3")
+            L.append("    type :: lt")
+            L.append("      integer :: c = n0 + 1")
+            L.append("      real(kind=gk) :: w = 2.0_gk")
+            L.append("      real(kind=gk), dimension(4) :: ys")
+            L.append("    end type lt")
+            L.append("    type(lt) :: lp")
+            L.append("    type(lt), dimension(m) :: lps")
+            has_lt = True
+        else:
+            has_lt = False
         if is_func:
             L.append("    real(kind=k) :: res")
         L.append("    integer :: i, j")
@@ -102,7 +122,9 @@ def gen_program(rng):
                 return [f"{pad}v(i + 1) = t(i) - 1.0_k"]
             if c < 0.80 and has_p:
                 return [f"{pad}p%cnt = p%cnt + ps(i)%cnt"] if rng.random() < 0.5 else [f"{pad}ps(j)%xs(1) = p%xs(2)"]
-            if c < 0.88:
+            if c < 0.86 and has_lt:
+                return [f"{pad}lp%c = lp%c + lps(i)%c"] if rng.random() < 0.5 else [f"{pad}lp%ys(1) = lp%w + x"]
+            if c < 0.92:
                 return [f"{pad}a(i, j) = a(i, j) + real(m, kind={ka})"]
             return [f"{pad}x = x + 1.0"]
 
@@ -120,4 +142,8 @@ def gen_program(rng):
     ntw = rng.choice([0, 0, 1, 1, 2, 3])
     for t in range(ntw):
         tweaks.append(["inner", rng.randrange(64), f"tmp{t}", rng.random() < 0.7, rng.random() < 0.8])
+    # derived types DEFINED in a routine (index >= 0) or in the module (-1) whose components have a kind, an
+    # array bound and default initialisers that use parameters of that very scope, plus variables of the type
+    for t in range(rng.choice([0, 1, 1, 2])):
+        tweaks.append(["ltype", rng.choice([-1, 0, 0, 1, 2]), f"gt{t}"])
     return src, tweaks
